@@ -156,6 +156,27 @@ func (env *SEnv) call(e *SExpr) *SVal {
 		case *types.Slice:
 			return &SVal{T: SLen(x.T)}
 		case *types.Map:
+			// heap well-formedness: the length of a map is the size of its domain (zero iff empty)
+			if mt, ok := x.Go.Underlying().(*types.Map); ok && !env.noAssume {
+				free := true
+				for _, b := range env.bound {
+					if strings.Contains(x.T.S, b.S) {
+						free = false
+					}
+				}
+				key := "lenzero:" + x.T.S + "@" + u.comp(env.cur, "ML").S
+				if u.wfSeen == nil {
+					u.wfSeen = map[string]bool{}
+				}
+				if free && !u.wfSeen[key] {
+					u.wfSeen[key] = true
+					md, _, ks, _ := u.mapComps(mt)
+					dom := Select(u.comp(env.cur, md), x.T)
+					ml := Select(u.comp(env.cur, "ML"), x.T)
+					empty := Term{fmt.Sprintf("((as const (Array %s Bool)) false)", ks), ArraySort(ks, SBool)}
+					u.assume(True, Implies(Eq(ml, IntLit(0)), Eq(dom, empty)))
+				}
+			}
 			return &SVal{T: Select(u.comp(env.cur, "ML"), x.T)}
 		case *types.Basic:
 			return &SVal{T: App(SInt, "str_len", x.T)}
